@@ -89,7 +89,7 @@ def contention_case(draw, d):
     kind = draw(st.sampled_from(['last-units', 'last-units', 'vs-inventory',
                                  'move-vs-put', 'traitagg-vs-alloc',
                                  'reshape-vs-alloc', 'same-consumer',
-                                 'vs-delete', 'double-submit',
+                                 'vs-delete', 'vs-delete', 'double-submit',
                                  'tree-race', 'class-race']))
     v = versions_cg(draw)
     free_cons = [c for c in gen.CONS if c not in d.consumers]
@@ -276,12 +276,17 @@ def contention_case(draw, d):
     elif kind == 'vs-delete':
         c = new_or_held(0)
         what = draw(st.sampled_from(['provider', 'inventories', 'allocs',
-                                     'allocs-same']))
+                                     'allocs-same', 'allocs-same']))
         if what == 'allocs-same' and held:
             # the PUT replaces the allocations of the very consumer whose
             # allocations are being deleted (fresh row ids in between)
             c = draw(st.sampled_from(held))
         reqs['A'] = put_alloc(d, c, {(rp, rc): amount_for(c)}, v)
+        if what == 'allocs-same' and c in held and free_cons and \
+                draw(st.booleans()):
+            # one POST clearing that consumer while placing for another one
+            reqs['A'] = post_alloc(
+                d, {c: {}, free_cons[0]: {(rp, rc): amount_for(c)}}, v)
         if what == 'provider':
             reqs['B'] = gen.R('DELETE', '/resource_providers/' + rp, v, None,
                               'delete_rp', [], target=rp)
@@ -356,7 +361,7 @@ def _gen_choice(draw, cur, mode):
 def provider_write(draw, d, rp, v, g, changing=True):
     """A generation-carrying write on provider rp that changes something."""
     kinds = ['put_inventories', 'put_rp_traits', 'put_rp_aggregates',
-             'reshaper']
+             'reshaper', 'reshaper']
     mine = sorted(rc for (p, rc) in d.inventories if p == rp)
     if mine:
         kinds += ['put_inventory', 'put_inventory']
@@ -364,10 +369,16 @@ def provider_write(draw, d, rp, v, g, changing=True):
     used = {rc for (_c, p, rc) in d.allocations if p == rp}
     if kind == 'put_inventories' or kind == 'reshaper':
         invs = current_inv_body(d, rp)
-        choice = draw(st.integers(0, 2))
+        choice = draw(st.integers(0, 4))
         addable = [rc for rc in gen.CLASSES if rc not in invs]
         droppable = [rc for rc in invs if rc not in used]
-        if choice == 0 and addable:
+        empty_out = kind == 'reshaper' and choice >= 3
+        if empty_out:
+            # everything moves away: no inventory left and every consumer
+            # allocated here cleared, so the provider's first generation
+            # compare-and-swap happens inside the allocation write
+            invs = {}
+        elif choice == 0 and addable:
             invs[draw(st.sampled_from(addable))] = {'total': draw(
                 st.integers(1, 12))}
         elif choice == 1 and droppable:
@@ -382,7 +393,10 @@ def provider_write(draw, d, rp, v, g, changing=True):
             if v < (1, 30):
                 v = (1, 38)
             entries = {}
-            if draw(st.booleans()):
+            if empty_out:
+                entries = {c: {} for c in sorted(
+                    {c for (c, p, _k) in d.allocations if p == rp})}
+            elif draw(st.booleans()):
                 # re-state the allocations of consumers on this provider, so
                 # that the provider appears under inventories AND allocations
                 on_rp = sorted({c for (c, p, _k) in d.allocations if p == rp})
@@ -477,7 +491,13 @@ def provider_race_case(draw, d):
         return None
     cands = sorted(d.providers)
     with_inv = sorted({p for (p, _rc) in d.inventories})
-    rp = draw(st.sampled_from(with_inv or cands))
+    used_rps = sorted({p for (_c, p, _k) in d.allocations})
+    if used_rps and draw(st.booleans()):
+        # a provider consumers are allocated on: writes on it go through the
+        # allocation path's generation handling as well
+        rp = draw(st.sampled_from(used_rps))
+    else:
+        rp = draw(st.sampled_from(with_inv or cands))
     cur = d.providers[rp]['generation']
     n = draw(st.sampled_from([2, 2, 3]))
     mode = draw(st.sampled_from(['current', 'current', 'mixed']))
@@ -527,7 +547,7 @@ def consumer_race_case(draw, d):
         return None
     held = sorted(d.consumers)
     free_cons = [c for c in gen.CONS if c not in d.consumers]
-    if held and draw(st.booleans()):
+    if held and draw(st.integers(0, 2)) > 0:
         c = draw(st.sampled_from(held))
         cur = d.consumers[c]['generation']
         gens = [cur, cur, cur + 1, cur - 1 if cur > 0 else None, None]
@@ -570,8 +590,9 @@ def consumer_race_case(draw, d):
                 d, {rp: current_inv_body(d, rp)}, {c: {(rp, rc): a}}, vr,
                 gens={c: g})
         reqs[name]['carried_consumer'] = [c, g]
-    if draw(st.integers(0, 4)) == 4:
-        # the same request submitted twice
+    if draw(st.integers(0, 2)) == 2:
+        # the same request submitted twice (a client retry racing the
+        # original): the most common real-world shape of this race
         import copy
         reqs['B'] = copy.deepcopy(reqs['A'])
     return reqs
